@@ -40,6 +40,13 @@ def cases(draw, tier):
         ['1.0', '0.5', '0.25', '2.0', '1.0', '0.5',
          '0.1', '0.2', '0.3', '0.7', '2.5', '5.0']))
     record['grid'] = grid
+    # the two curves in either order, and between them an attempt to set the
+    # grid again (refused today)
+    record['curve_order'] = draw(st.sampled_from(
+        [['rise', 'recession'], ['recession', 'rise']]))
+    record['regrid'] = draw(st.sampled_from([None, None, '0.5', '2.0', '1.0']))
+    if record['regrid'] == grid:
+        record['regrid'] = None
     return record
 
 
@@ -105,16 +112,41 @@ def check(case):
         finally:
             connection.close()
         results = {}
-        for which, run in (('rise', wf.rise), ('recession', wf.recession)):
+        runs = {'rise': wf.rise, 'recession': wf.recession}
+        order = case.get('curve_order') or ['rise', 'recession']
+        for position, which in enumerate(order):
+            if position == 1 and case.get('regrid') and results:
+                # set-zeta-grid once more between the two curves: whatever
+                # happens, both curves must be the planted truth on the grid
+                # the file then declares
+                try:
+                    wf.zeta_grid(case['regrid'])
+                except Exception:  # pylint: disable=broad-except
+                    labels.add('regrid-refused')
+                else:
+                    labels.add('regrid-accepted')
+                connection = wf.connect()
+                try:
+                    (h_now,) = connection.execute(
+                        'SELECT grid_interval_mm FROM zeta_grid').fetchone()
+                    if h_now != h:
+                        h = h_now
+                        for w in ('rise', 'recession'):
+                            plans[w] = verify_curve(case, connection, w, h,
+                                                    None, None)
+                finally:
+                    connection.close()
             unambiguous = plans[which][5]
             if not unambiguous:
                 labels.add(which + '-main-body-ambiguous')
                 continue
-            guarded(run)
+            guarded(runs[which])
             results[which] = True
         connection = wf.connect()
         try:
             for which in results:
+                if not plans[which][5]:
+                    continue
                 labels |= compare(case, connection, which, h, plans[which])
         finally:
             connection.close()
